@@ -189,11 +189,11 @@ Definition to_ullong_m (ws : list N) : N :=
   fold_left (fun result i => if test_raw ws i then set_bit m64 result (N.of_nat i) else result)
             (seq 0 (Nat.min bits 64)) 0%N.
 
-(* to_string<Capacity>(zero, one):
-   for (i = size()-1; i != 0; --i) push_back(test(i) ? one : zero);  push_back(test(0) ? one : zero) *)
+(* to_string<Capacity>(zero, one)   (after the fix "bitset<0>::to_string returns an empty string"):
+   for (i = size(); i != 0; --i) push_back(test(i - 1) ? one : zero);
+   positions size()-1, ..., 0, each below size(): the precondition of test() holds; no iteration for Bits = 0 *)
 Definition to_string_m (ws : list N) (zero one : N) : list N :=
-  map (fun i => if test_raw ws i then one else zero) (rev (seq 1 (bits - 1)))
-  ++ [if test_raw ws 0 then one else zero].
+  map (fun i => if test_raw ws i then one else zero) (rev (seq 0 bits)).
 
 (* bitset(basic_string_view str, pos, n, zero, one)   [n : size_t, npos = 2^64-1]
      : bitset(0ULL)
